@@ -12,7 +12,7 @@ pub fn mk_map<const N: usize>(items: usize, deleted: usize, h: &[u64; K]) -> (M,
     let mut m: M = HashMap::with_capacity_and_hasher(capreq(N), TabHasher { h: *h });
     let st = fill::<E, _, N>(
         hv::raw_of_map(&mut m),
-        Spec { items, deleted, kind: InvKind::Full, h, distinct: true, id_is_slot: false, layout: None },
+        Spec { items, deleted, kind: InvKind::Full, h, distinct: true, id_is_slot: false, layout: None, concrete_tags: None },
     );
     (m, st)
 }
